@@ -263,9 +263,20 @@ func (x *Exec) underGuard(st *State, guard Term, f func() Term) Term {
 	for k, v := range st.vars {
 		snapshot[k] = v.S
 	}
+	ghostBefore := make(map[string]Term, len(st.ghost))
+	for k, v := range st.ghost {
+		ghostBefore[k] = v
+	}
 	st.pc = x.namePC(tAnd(saved, guard))
 	r := f()
 	inner := st.pc
+	// ghost state updated at an anchor inside a short-circuit operand (a call in `a && f()`) changes only when the
+	// operand is evaluated
+	for k, v := range st.ghost {
+		if old, ok := ghostBefore[k]; ok && old.S != v.S {
+			st.ghost[k] = x.c().define("g_"+k, tIte(guard, v, old))
+		}
+	}
 	for k, v := range st.vars {
 		if s, ok := snapshot[k]; ok && s != v.S {
 			// state changed under a short-circuit operand: merge by ite
